@@ -135,6 +135,7 @@ type FuncSpec struct {
 	Line           string
 	Used           bool
 	Fresh          bool // result is a freshly allocated reference
+	RiskyFrame     bool // frame completed implicitly, or no modifies clause at all: calls get a satisfiability cover in every tier
 	Holds          []HoldDecl
 	CallersNeed    []string    // properties under which every module function calling this one must itself be under contract
 	CallersChecked []string    // properties under which every module function calling this one is checked (so that its tagged requires are obligations at every call)
